@@ -3,7 +3,7 @@
      after it has been loaded (for every history, any cache size, any memoised function);
    - without memoisation every load is fresh. *)
 From Coq Require Import ZArith List Bool Lia String.
-From PyxelV Require Import Model.Placement Model.Memo.
+From PyxelV Require Import Model.Placement Model.Memo Proofs.Placement.
 Import ListNotations.
 Open Scope Z_scope.
 
@@ -72,7 +72,7 @@ Theorem memo_fresh_if_no_rewrite h : forall st loaded,
   cache_fresh (st_fs st) loaded (st_cache st) -> no_rewrite loaded h = true ->
   run fitf true maxsize kf st h = fresh_run fitf (st_fs st) h.
 Proof.
-  induction h as [|[p c|q] h IH]; intros st loaded CF NR; simpl in *; [reflexivity| |].
+  induction h as [|[p c|q|p] h IH]; intros st loaded CF NR; simpl in *; [reflexivity| | |].
   - apply andb_prop in NR. destruct NR as [NP NR].
     apply (IH {| st_fs := fs_put (st_fs st) p c; st_cache := st_cache st |} loaded); simpl; [|exact NR].
     intros k v Hin. destruct (CF k v Hin) as [q [E1 [E2 E3]]]. exists q. repeat split; simpl; auto.
@@ -98,6 +98,7 @@ Proof.
         -- destruct (CF k v' H) as [q2 [A1 [A2 A3]]]. exists q2. repeat split; simpl; auto.
       * f_equal. apply (IH st (q_file q :: loaded)); [|exact NR].
         intros k v' H. destruct (CF k v' H) as [q2 [A1 [A2 A3]]]. exists q2. repeat split; simpl; auto.
+  - f_equal. apply (IH st loaded); assumption.
 Qed.
 
 End MemoProofs.
@@ -105,8 +106,9 @@ End MemoProofs.
 Theorem unmemoised_fresh fitf maxsize kf h : forall st,
   run fitf false maxsize kf st h = fresh_run fitf (st_fs st) h.
 Proof.
-  induction h as [|[p c|q] h IH]; intros st; simpl; [reflexivity| |].
+  induction h as [|[p c|q|p] h IH]; intros st; simpl; [reflexivity| | |].
   - apply IH.
+  - f_equal. apply IH.
   - f_equal. apply IH.
 Qed.
 
@@ -116,4 +118,69 @@ Corollary memo_fresh_from_start fitf maxsize kf h :
 Proof.
   intros HC NR. apply (memo_fresh_if_no_rewrite fitf maxsize kf HC h mstate0 []); [|exact NR].
   intros k v [].
+Qed.
+
+(* ---------------------------------------------------------------- memoising on the arguments goes stale *)
+
+Lemma kval_eqb_refl a : kval_eqb a a = true.
+Proof.
+  destruct a as [x|x|[x|]|x|[x1 x2]]; simpl.
+  - apply Z.eqb_refl.
+  - apply String.eqb_refl.
+  - apply String.eqb_refl.
+  - reflexivity.
+  - destruct x; reflexivity.
+  - rewrite !Z.eqb_refl. reflexivity.
+Qed.
+
+Lemma key_eqb_refl k : key_eqb k k = true.
+Proof. induction k as [|a k IH]; simpl; [reflexivity|]. rewrite kval_eqb_refl, IH. reflexivity. Qed.
+
+(* whatever fields of the ARGUMENTS form the key and whatever the cache size (>= 1): rewriting the file between two
+   identical requests makes the second one return the first content, as soon as the function distinguishes the two
+   contents at all *)
+Theorem memo_on_arguments_stale fitf maxsize kf p c1 c2 q v1 v2 :
+  (1 <= maxsize)%nat -> q_file q = p -> fitf c1 q = Some v1 -> fitf c2 q = Some v2 -> v1 <> v2 ->
+  run fitf true maxsize kf mstate0 [Write p c1; Load q; Write p c2; Load q]
+  <> fresh_run fitf [] [Write p c1; Load q; Write p c2; Load q].
+Proof.
+  intros M P F1 F2 NE. subst p. cbn [run fresh_run]. unfold do_load. cbn [st_cache st_fs mstate0 cache_get].
+  unfold compute. cbn [fs_put fs_get st_fs]. rewrite String.eqb_refl, F1, F2.
+  cbn [st_cache st_fs]. unfold cache_insert. destruct maxsize as [|m]; [inversion M|].
+  cbn [firstn cache_get]. rewrite key_eqb_refl.
+  intros H. injection H as H. apply NE. exact H.
+Qed.
+
+(* ---------------------------------------------------------------- loads place the current content *)
+
+Lemma fs_put_wf fs p c :
+  (forall p' c', fs_get fs p' = Some c' -> wf_content c' = true) -> wf_content c = true ->
+  forall p' c', fs_get (fs_put fs p c) p' = Some c' -> wf_content c' = true.
+Proof.
+  intros H W p' c'. unfold fs_put. cbn [fs_get]. destruct (String.eqb p p').
+  - intros [= <-]. exact W.
+  - apply H.
+Qed.
+
+(* in a well-formed history every load through the placement function returns what the SPECIFICATION says of the
+   content the file holds at that moment *)
+Theorem fresh_run_meets_spec algn names :
+  (forall kw ax ay ox oy, algn kw ax ay ox oy = doc_align kw ax ay ox oy) ->
+  (forall s, lookup_kw names s = lookup_kw doc_names s) ->
+  forall h fs, (forall p c, fs_get fs p = Some c -> wf_content c = true) -> wf_history h = true ->
+    fresh_run (fit_of algn names) fs h = fresh_run spec_fit_of fs h.
+Proof.
+  intros HA HN. induction h as [|[p c|q|p] h IH]; intros fs WF WH; cbn [fresh_run wf_history] in *.
+  - reflexivity.
+  - apply andb_prop in WH. destruct WH as [W1 W2]. apply IH; [|exact W2]. apply fs_put_wf; assumption.
+  - apply andb_prop in WH. destruct WH as [W1 W2]. rewrite (IH fs WF W2). f_equal.
+    unfold compute. destruct (fs_get fs (q_file q)) as [[[ay ax] a]|] eqn:G; [|reflexivity].
+    specialize (WF _ _ G). unfold wf_content in WF. unfold wf_request in W1. apply andb_prop in W1.
+    destruct W1 as [Q1 Q2]. apply Z.leb_le in Q1. apply Z.leb_le in Q2.
+    unfold fit_of, spec_fit_of.
+    pose proof (fit_meets_spec algn names ay ax a (fst (q_shape q)) (snd (q_shape q)) (q_py q, q_px q)
+                               (q_align q) (q_allow q) WF Q1 Q2 HA HN) as M.
+    destruct (fit_into_array algn names ay ax a (fst (q_shape q)) (snd (q_shape q)) (q_py q, q_px q)
+                             (q_align q) (q_allow q)); rewrite M; reflexivity.
+  - rewrite (IH fs WF WH). reflexivity.
 Qed.
